@@ -7,6 +7,7 @@ import IpaVerif.Model.SeqJoin
   c15.dep <w> <n> <d> <polls> every task k is ready once tasks k+1..k+d have been polled; source always ready
   c15.try <w> <n> <errs> <op>…  seq_try_join_all; ops `r<i>`, `p` (one poll of the TryCollect future)
   c15.par <n> <errs> <op>…      parallel_join (futures::try_join_all); ops `r<i>`, `p`
+  c15.tryp <w> <n> <errs> <op>… seq_join(w, source).try_collect() over a source that may be Pending; ops `s<k>`, `r<i>`, `p`
 -/
 namespace IpaVerif.Driver.C15
 open IpaVerif.Util IpaVerif.SeqJoin
@@ -63,6 +64,24 @@ def tryOps (errs : List Nat) : Option (State × List Nat) → List Nat → List 
         tryOps errs st' rdy ts (s!"{tryStr o}/{plus polled}" :: acc)
     | _ => none
 
+/-- `c15.tryp`: `seq_join(w, source).try_collect()` with a source that may be pending (`s<k>`). -/
+def trypOps (errs : List Nat) : Option (State × List Nat) → Nat → List Nat → List String → List String → Option (List String)
+  | _, _, _, [], acc => some acc.reverse
+  | st, budget, rdy, t :: ts, acc => do
+    let (c, arg) ← splitOp t
+    match c with
+    | 's' => trypOps errs st (budget + (← arg.toNat?)) rdy ts ("s" :: acc)
+    | 'r' => trypOps errs st budget ((← arg.toNat?) :: rdy) ts ("r" :: acc)
+    | 'p' =>
+      match st with
+      | none => trypOps errs none budget rdy ts ("gone" :: acc)
+      | some (s, collected) =>
+        let (s', b', collected', o, polled) :=
+          tryPollB (errs.contains ·) (fun _ i => rdy.contains i) (s.src.length + s.active.length + 2) s budget collected []
+        let st' := if o == .pending then some (s', collected') else none
+        trypOps errs st' b' rdy ts (s!"{tryStr o}/{plus polled}" :: acc)
+    | _ => none
+
 def parOps (errs : List Nat) : Option (List (Nat × Bool)) → List Nat → List String → List String → Option (List String)
   | _, _, [], acc => some acc.reverse
   | st, rdy, t :: ts, acc => do
@@ -101,12 +120,36 @@ def handle (toks : List String) : Option String :=
       match tryOps errs (some (State.new n w, [])) [] ops [] with
       | some r => return join r
       | none => return "bad-request"
+  | "c15.tryp" :: w :: n :: errs :: ops => some <| Id.run do
+      let some w := w.toNat? | return "bad-request"
+      let some n := n.toNat? | return "bad-request"
+      let some errs := parseNatList errs | return "bad-request"
+      match trypOps errs (some (State.new n w, [])) 0 [] ops [] with
+      | some r => return join r
+      | none => return "bad-request"
   | "c15.par" :: n :: errs :: ops => some <| Id.run do
       let some n := n.toNat? | return "bad-request"
       let some errs := parseNatList errs | return "bad-request"
       match parOps errs (some ((List.range n).map (·, false))) [] ops [] with
       | some r => return join r
       | none => return "bad-request"
+  -- multi-threaded implementation (outputs and order only)
+  | ["c15mt.join", _, n, errs, _] => some <| Id.run do
+      let some n := n.toNat? | return "bad-request"
+      let some errs := parseNatList errs | return "bad-request"
+      match (List.range n).find? (errs.contains ·) with
+      | some e => return s!"ERR:{e}"
+      | none => return s!"OK:{plus (List.range n)}"
+  | ["c15mt.stream", _, n, _] => some <| Id.run do
+      let some n := n.toNat? | return "bad-request"
+      return s!"OK:{plus (List.range n)}"
+  | ["c15mt.par", _, _, _] => some "judge"
+  | ["c15mt.dep", w, n, d] => some <| Id.run do
+      let some w := w.toNat? | return "bad-request"
+      let some n := n.toNat? | return "bad-request"
+      let some d := d.toNat? | return "bad-request"
+      -- `window_dependency_progress`: completes when dependencies reach at most w-1 tasks ahead
+      if d + 1 ≤ w ∨ n ≤ w then return s!"OK:{plus (List.range n)}" else return "hang"
   | t :: _ => if t.startsWith "c15." then some "bad-request" else none
   | [] => none
 
@@ -213,6 +256,64 @@ def oracle (toks : List String) (impl : String) : Option String :=
               | none => if out ≠ s!"OK:{plus (List.range n)}" then return s!"fails expected all results in input order, got {out}"
         | _ => pure ()
       return "holds"
+  | "c15.tryp" :: _ :: n :: errs :: ops => some <| Id.run do
+      -- statement only: the fallible join over a possibly pending source ends with the FIRST error
+      -- (input order) or with all results in input order, exactly when every task up to there is ready
+      -- and the source has been allowed to yield them
+      let some n := n.toNat? | return "unknown"
+      let some errs := parseNatList errs | return "unknown"
+      let resps := impl.splitOn " "
+      if resps.length ≠ ops.length then return "unknown"
+      let mut rdy : List Nat := []
+      let mut granted := 0
+      let mut done := false
+      for (t, r) in ops.zip resps do
+        match splitOp t with
+        | some ('s', a) => granted := granted + a.toNat?.getD 0
+        | some ('r', a) => rdy := a.toNat?.getD 0 :: rdy
+        | some ('p', _) =>
+          if done then
+            if r ≠ "gone" then return "unknown"
+          else
+            let out := (r.splitOn "/").getD 0 ""
+            let firstErr := (List.range n).find? (errs.contains ·)
+            let need := match firstErr with | some e => List.range (e + 1) | none => List.range n
+            let canFinish := need.all (rdy.contains ·) ∧ granted ≥ need.length
+            if out == "P" then
+              if canFinish then return "fails join pending although every task up to the first error is ready and the source has yielded them"
+            else
+              done := true
+              if !canFinish then return s!"fails join completed ({out}) before the needed tasks were ready / yielded by the source"
+              match firstErr with
+              | some e => if out ≠ s!"ERR:{e}" then return s!"fails expected the first error {e}, got {out}"
+              | none => if out ≠ s!"OK:{plus (List.range n)}" then return s!"fails expected all results in input order, got {out}"
+        | _ => pure ()
+      return "holds"
+  | ["c15mt.join", _, n, errs, _] => some <| Id.run do
+      let some n := n.toNat? | return "unknown"
+      let some errs := parseNatList errs | return "unknown"
+      match (List.range n).find? (errs.contains ·) with
+      | some e => if impl = s!"ERR:{e}" then return "holds" else return s!"fails expected the first error {e} in input order, got {impl}"
+      | none => if impl = s!"OK:{plus (List.range n)}" then return "holds" else return s!"fails expected every result once, in input order, got {impl}"
+  | ["c15mt.stream", _, n, _] => some <| Id.run do
+      let some n := n.toNat? | return "unknown"
+      if impl = s!"OK:{plus (List.range n)}" then return "holds" else return s!"fails expected every result once, in input order, got {impl}"
+  | ["c15mt.par", n, errs, _] => some <| Id.run do
+      let some n := n.toNat? | return "unknown"
+      let some errs := parseNatList errs | return "unknown"
+      let es := (List.range n).filter (errs.contains ·)
+      if es.isEmpty then
+        if impl = s!"OK:{plus (List.range n)}" then return "holds" else return s!"fails parallel join: expected all results in input order, got {impl}"
+      else if es.any (fun e => impl = s!"ERR:{e}") then return "holds"
+      else return s!"fails parallel join: expected one of the errors {plus es}, got {impl}"
+  | ["c15mt.dep", w, n, d] => some <| Id.run do
+      let some w := w.toNat? | return "unknown"
+      let some n := n.toNat? | return "unknown"
+      let some d := d.toNat? | return "unknown"
+      if d + 1 ≤ w ∨ n ≤ w then
+        if impl = s!"OK:{plus (List.range n)}" then return "holds"
+        else return s!"fails dependencies reach only {d} < window {w} but the join gave {impl}"
+      else return "holds"
   | "c15.par" :: n :: errs :: ops => some <| Id.run do
       let some n := n.toNat? | return "unknown"
       let some errs := parseNatList errs | return "unknown"
